@@ -27,7 +27,7 @@ if [ -e "$W/verif/known_findings.txt" ]; then
 fi
 # 2. commits
 cd /repo
-for c in $(git log --reverse --format=%H 20b8332..agent-$P); do
+for c in $(git log --reverse --format=%H $(git merge-base main agent-$P)..agent-$P); do
   if git cherry-pick -x "$c" >/tmp/cp.log 2>&1; then echo "picked $(git log --format='%h %s' -1)"
   elif grep -q "now empty\|nothing to commit" /tmp/cp.log; then git cherry-pick --skip; echo "skipped (already applied) $c"
   elif python3 /verif/tools/resolve_hooks.py; then echo "picked (hooks merged) $(git log --format='%h %s' -1)"
